@@ -1092,6 +1092,15 @@ def ia_stream(ctx):
     mirr = list(zip(offs, alg_query([(p_[4], p_[5]) for p_ in offs]))) + \
         [(p_, (m[0], [x for row in m[1] for x in row]) if m[0] == "ok" else m)
          for p_, m in zip(ons, alg_online_query([(p_[4], p_[5], p_[9]) for p_ in ons]))]
+    # the interface-aware offline visitor as translated from the source (`densealggen` on the transformed formula: the predicate
+    # override of the robustness semantics is `visitPredicate_outRob` of GeneratedDense.lean)
+    for p_, m in zip(offs, alg_query([(p_[4], p_[5]) for p_ in offs], cmd="densealggen")):
+        raw = p_[8]["raw"]
+        ctx.count("ia-translated:offc/%s" % (m[0] if m[0] != "err" else "err-" + m[1]))
+        if m[0] == "ok" and not any(x[1] != x[1] for x in raw) and not same_samples(raw, m[1]):
+            ctx.diffs.append(Violation("the dense offline visitor translated from the source gives %r on the transformed formula, the monitor under %s "
+                                       "semantics returned %r: %s" % (m[1], p_[1], raw, p_[3]),
+                                       dict(p_[8], translated=[[str(t), v] for t, v in m[1]]), failing_input=False, stream="ia-c/translated"))
     for (mon, sem, io, text, tf, sig, a, qs, rep, cuts), m in mirr:
         ctx.count("ia-mirror:%s/%s" % (mon, m[0] if m[0] != "err" else "err-" + m[1]))
         raw = rep["raw"]
